@@ -203,6 +203,41 @@ func c13World(t *testing.T, p c13Params) rt.Result {
 				}
 			}
 		}
+		// bursts: three connections from one configured peer at the same virtual
+		// instant; at most one may be served, the others are closed without a byte
+		// and none may be left open (the accountant at Close catches a forgotten one)
+		for _, pp := range p.Peers {
+			if pp.State == "deleted" {
+				continue
+			}
+			dst := localFor(pp)
+			var cs []*hz.RConn
+			for k := 0; k < 3; k++ {
+				cs = append(cs, w.ConnectTo(netip.MustParseAddr(pp.Addr), dst))
+			}
+			w.Settle()
+			served := 0
+			for _, c := range cs {
+				if len(c.Msgs()) > 0 {
+					served++
+					continue
+				}
+				if eof, _ := c.EOF(); !eof || c.Received() != 0 {
+					w.Violate("burst of 3 connections from %s: a connection that was not served was not closed silently (eof=%v, %d bytes)", pp.Addr, eof, c.Received())
+				}
+			}
+			want := 0
+			if admit(pp.Addr, dst.String(), p.Peers) {
+				want = 1
+			}
+			if served != want {
+				w.Violate("burst of 3 simultaneous connections from %s (state %s): %d served, want %d", pp.Addr, pp.State, served, want)
+			}
+			for _, c := range cs {
+				c.Close()
+			}
+			w.Settle()
+		}
 		// existing sessions are unaffected
 		for a, rc := range live {
 			m := mons[a]
